@@ -1066,7 +1066,7 @@ func main() {
 				in := input{Mode: "life", Labels: permuted(labelPool(3), p), Deps: [][]int{{1, 2}, {}, {0}}, Root: 0, Plan: []string{"Built", "Failed", "Built"}}
 				doLife(in, "cycle-member-with-failing-dependency", true)
 			})
-			nl := c.Scale(220, 4000)
+			nl := c.Scale(220, 2500)
 			for i := 0; i < nl; i++ {
 				r := c.Rng.Fork()
 				shape, deps, root, plan := randomLife(r)
